@@ -654,6 +654,9 @@ func (b *BaseStore) Sync(ctx context.Context, heads []ipfslog.Entry) error {
 		return nil
 	}
 
+	// only the heads that pass every check below are handed to the replicator
+	verified := make([]ipfslog.Entry, 0, len(heads))
+
 	for _, h := range heads {
 		if h == nil {
 			b.Logger().Debug("warning: Given input entry was 'null'.")
@@ -692,10 +695,15 @@ func (b *BaseStore) Sync(ctx context.Context, heads []ipfslog.Entry) error {
 		}
 
 		span.AddEvent("store-sync-head-verified")
+		verified = append(verified, h)
 	}
 
-	verifhook.Point("store.sync.spawn", b.replicator, heads)
-	go b.Replicator().Load(ctx, heads)
+	if len(verified) == 0 {
+		return nil
+	}
+
+	verifhook.Point("store.sync.spawn", b.replicator, verified)
+	go b.Replicator().Load(ctx, verified)
 
 	return nil
 }
@@ -1023,8 +1031,10 @@ func (b *BaseStore) replicationLoadComplete(ctx context.Context, logs []ipfslog.
 	for _, log := range logs {
 		_, err := oplog.Join(log, -1)
 		if err != nil {
+			// a log that cannot be joined (unauthorised or badly signed entry)
+			// is dropped on its own: the other fetched logs are still merged
 			b.Logger().Error("unable to join logs", zap.Error(err))
-			return
+			continue
 		}
 
 		entries = append(entries, log.GetEntries().Slice()...)
